@@ -185,6 +185,8 @@ func (f *Frame) instr(ins ssa.Instruction, st *State) bool {
 			f.runGhostHooks("callparam:"+pv.Name(), extra, st)
 		} else if b, ok := x.Call.Value.(*ssa.Builtin); ok && b.Name() == "delete" {
 			f.runGhostHooks("delete", map[string]Val{"deleted_map": f.val(x.Call.Args[0], st), "deleted_key": f.val(x.Call.Args[1], st)}, st)
+			} else if b, ok := x.Call.Value.(*ssa.Builtin); ok && b.Name() == "append" {
+			f.runGhostHooks("append", map[string]Val{"appended_to": f.val(x.Call.Args[0], st), "result": res}, st)
 		}
 	case *ssa.Defer:
 		d := deferred{call: &x.Call, pos: x.Pos()}
@@ -741,10 +743,42 @@ func (f *Frame) rangeNext(x *ssa.Next, st *State) {
 	q := Term{"k", ks}
 	allSeen := Forall([]Term{q}, Implies(And(Neq(m, IntLit(0)), Select(d, q)), Select(seen, q)), Select(d, q))
 	un.assume(st, Ite(ok, And(Neq(m, IntLit(0)), Select(d, k), Not(Select(seen, k))), allSeen))
+	// when the range is exhausted the visited set IS the key set (only keys of the map are ever visited)
+	// (as long as the loop does not write maps of this type: the key set is still the one the range started with)
+	if !un.eng.loopWritesMap(f, x, dn) {
+		un.assume(st, Implies(Not(ok), Eq(seen, Ite(Eq(m, IntLit(0)), ConstArr(ArrSort(ks, SBool), tFalse), d))))
+	}
 	un.setH(st, key, Ite(ok, Store(seen, k, tTrue), seen))
 	val := un.define(x.Name()+"_v", Select(vv, k))
 	un.assume(st, Implies(ok, And(un.typeFacts(mt.Key(), k, st, 0), un.typeFacts(mt.Elem(), val, st, 0))))
 	f.vals[x] = Val{Tup: []Val{{T: ok, Go: types.Typ[types.Bool]}, {T: k, Go: mt.Key()}, {T: val, Go: mt.Elem()}}}
+}
+
+// loopWritesMap: the loop around the range step x may modify map heap dn (or everything).
+func (e *Engine) loopWritesMap(f *Frame, x *ssa.Next, dn string) bool {
+	if li := f.loops[x.Block()]; li != nil {
+		{
+			mods := e.loopMods(f, li)
+			if mods["*"] || mods["*nonghost"] || mods[dn] {
+				return true
+			}
+			for k := range mods {
+				if strings.HasPrefix(k, "*nonghost-except:") {
+					keep := false
+					for _, h := range strings.Split(strings.TrimPrefix(k, "*nonghost-except:"), ",") {
+						if h == dn {
+							keep = true
+						}
+					}
+					if !keep {
+						return true
+					}
+				}
+			}
+			return false
+		}
+	}
+	return true
 }
 
 func (f *Frame) chanSend(x *ssa.Send, st *State) {
